@@ -27,12 +27,44 @@ pub fn yield_point() {
 }
 
 /// Run `body` under loom with the given preemption bound; `body` runs once per schedule.
+/// Wall-clock cap per loom model (seconds); a model that hits it is reported as not exhaustive.
+pub static MODEL_CAP_S: AtomicU64 = AtomicU64::new(3600);
+pub static CAPPED_MODELS: AtomicU64 = AtomicU64::new(0);
+
+/// Overall wall-clock budget of the current phase: models that would start after it are skipped
+/// (and counted), never silently.
+pub static PHASE_DEADLINE: std::sync::Mutex<Option<std::time::Instant>> = std::sync::Mutex::new(None);
+pub static SKIPPED_MODELS: AtomicU64 = AtomicU64::new(0);
+
+pub fn set_phase_budget(secs: u64) {
+    *PHASE_DEADLINE.lock().unwrap() = Some(std::time::Instant::now() + std::time::Duration::from_secs(secs));
+}
+
 pub fn explore(preemption_bound: Option<usize>, max_branches: usize, body: impl Fn() + Sync + Send + 'static) -> u64 {
+    if let Some(d) = *PHASE_DEADLINE.lock().unwrap() {
+        if std::time::Instant::now() > d {
+            SKIPPED_MODELS.fetch_add(1, Ordering::SeqCst);
+            return 0;
+        }
+    }
     let before = SCHEDULES.load(Ordering::SeqCst);
     let mut b = loom::model::Builder::new();
     b.preemption_bound = preemption_bound;
     b.max_branches = max_branches;
     b.max_threads = 5;
+    let cap = MODEL_CAP_S.load(Ordering::SeqCst);
+    b.max_duration = Some(std::time::Duration::from_secs(cap));
+    let t0 = std::time::Instant::now();
+    let r = explore_inner(b, body);
+    if t0.elapsed().as_secs() >= cap {
+        CAPPED_MODELS.fetch_add(1, Ordering::SeqCst);
+    }
+    let _ = r;
+    SCHEDULES.load(Ordering::SeqCst) - before
+}
+
+fn explore_inner(b: loom::model::Builder, body: impl Fn() + Sync + Send + 'static) -> u64 {
+    let before = SCHEDULES.load(Ordering::SeqCst);
     b.check(move || {
         SCHEDULES.fetch_add(1, Ordering::SeqCst);
         let a = loom::sync::Arc::new(loom::sync::atomic::AtomicUsize::new(0));
@@ -105,16 +137,21 @@ fn main() {
 }
 
 fn run(args: &Args, rep: &mut Report) {
+    MODEL_CAP_S.store(if args.thorough() { 60 } else { 30 }, Ordering::SeqCst);
     match args.prop.as_str() {
         "C08" => {
+            set_phase_budget(if args.thorough() { 600 } else { 120 });
             rust_side::c08(args, rep);
+            set_phase_budget(if args.thorough() { 600 } else { 120 });
             cside::c08(args, rep);
             rep.rule = "update_with_join driven through the scripted Join (hook H3) and blake3_hasher_update_tbb through the scripted parallel_invoke (stand-in header, real blake3_tbb.cpp): (1) every assignment of {left-first, right-first} to the internal nodes of the split tree; (2) every choice of up to 2 (quick) / 3 (thorough) concurrent nodes, all interleavings of the scheduling points (join entry/exit, every kernel entry) under a preemption bound; after every execution the complete hasher state and the outputs must equal single-threaded update and the spec; (3) real rayon pools of 1..16 threads (sampling, labelled so) and a free-running ThreadSanitizer pass on the C side; states = distinct executions (order assignments + schedules); non-trivial = executions with at least one right-first or concurrent node".into();
             rep.assumptions.push("interleavings inside one kernel call and weak-memory effects on plain accesses are not explored (race detector passes only)".into());
             rep.assumptions.push("oneTBB is replaced by a stand-in parallel_invoke; real TBB scheduling is out of reach".into());
         }
         "C18" => {
+            set_phase_budget(if args.thorough() { 600 } else { 120 });
             rust_side::c18(args, rep);
+            set_phase_budget(if args.thorough() { 600 } else { 120 });
             cside::c18(args, rep);
             rep.rule = "two and three controlled threads, each running a complete operation sequence (incremental hashing, extended output with seeks, one-shot calls; C: init/update/finalize_seek) on its own instances, interleaved at every kernel entry - and, on the C side, at every load and store of the feature cache, starting from UNDEFINED so that detection itself races - all interleavings under a preemption bound; every thread's results must equal its results when run alone; on the Rust side every Platform::detect() call is additionally an environment choice that may answer any level up to the best one (all answer sequences with <= 2 deviations); plus N=16 real threads as the first calls of fresh processes (sampling, labelled so); states = distinct schedules / answer sequences; non-trivial = executions with >= 1 context switch or deviation".into();
             rep.assumptions.push("the cpufeatures crate's own atomics are not intercepted; they are over-approximated by letting detect() answer any level".into());
@@ -125,6 +162,16 @@ fn run(args: &Args, rep: &mut Report) {
         }
     }
     drain_into(rep);
+    let capped = CAPPED_MODELS.load(Ordering::SeqCst);
+    if capped > 0 {
+        rep.cap(&format!("{} loom model(s) stopped at the per-model wall-clock cap of {} s (their schedule spaces were explored only partially)", capped, MODEL_CAP_S.load(Ordering::SeqCst)));
+    }
+    let skipped = SKIPPED_MODELS.load(Ordering::SeqCst);
+    if skipped > 0 {
+        rep.cap(&format!("{} loom model(s) not started: the phase's wall-clock budget was used up (models are ordered smallest first)", skipped));
+    }
+    rep.add("loom_models_skipped", skipped);
+    rep.add("loom_models_capped", capped);
     rep.add("schedules", SCHEDULES.load(Ordering::SeqCst));
     rep.add("scheduling_points_executed", YIELDS.load(Ordering::SeqCst));
     let st = rep.get("states");
